@@ -276,13 +276,16 @@ PROPS = {
         },
     },
     "C03": {
-        "engine": "sysim",
-        "instrument": "",
-        "cfgs": [""],
+        "parts": [
+            {"engine": "sysim", "cfgs": [""], "share": 3, "chunk": 2000},
+            {"engine": "wire", "cfgs": ["", "timed"], "modreplace": QUIC_MODREPLACE, "share": 1, "chunk": 100},
+        ],
+        "det_trace": False,
+        "det_runs": 12,
         "quick": {"seconds": 30, "chunk": 2000, "runs": 100000},
         "thorough": {"seconds": 900, "chunk": 8000},
-        "rule": 'one run = a universe of 3 profiles (one possibly deleted) and 6 devices (attached/detached; auth off, on with/without password, DoH-only with/without password; linked IPs; dedicated IPs) in the real profile DB, 7 servers (plain DNS with linked IP on/off, plain DNS bound to an interface with dedicated addresses, DoT, DoH, DoQ, DNSCrypt) and 4-40 requests whose identifier travels by URL path, basic-auth user with absent/right/wrong/empty password, TLS server name (exact, upper case, nested label, other domain, bare domain), EDNS CPE-ID, dedicated local address or linked client address - also on the wrong transport and with path and credentials of different devices; non-trivial = at least one device recognised; distinct = distinct decision-sequence hash',
-        "assumptions": ['the reference (identify) is written from the statement and doc/; a malformed identifier may be answered with an error, the statement only demands that nobody is recognised', 'human-readable IDs and automatic device creation are not exercised', 'identifiers are injected into dnsserver.RequestInfo as the transports would set them; their extraction from real TLS/HTTP traffic is not part of this check'],
+        "rule": 'one run = a universe of 3 profiles (one possibly deleted) and 6 devices (attached/detached; auth off, on with/without password, DoH-only with/without password; linked IPs; dedicated IPs) in the real profile DB, 7 servers (plain DNS with linked IP on/off, plain DNS bound to an interface with dedicated addresses, DoT, DoH, DoQ, DNSCrypt) and 4-40 requests whose identifier travels by URL path, basic-auth user with absent/right/wrong/empty password, TLS server name (exact, upper case, nested label, other domain, bare domain), EDNS CPE-ID, dedicated local address or linked client address - also on the wrong transport and with path and credentials of different devices; human-readable identifiers for existing, unknown and to-be-created devices with automatic devices on/off; server names that merely end with the device domain; non-trivial = at least one device recognised; distinct = distinct decision-sequence hash.  wire part: real DoT, DoH (HTTP/1.1 and HTTP/2) and DoQ servers on the simulated network (immediate or timed with segmentation); 4-20 requests with server names, URL paths and basic-auth credentials from small sets, requests with the same transport and server name share a connection (HTTP/2 requests overlap on it); the handler records the request information it is given and every field must equal what the client sent with that request',
+        "assumptions": ['the reference (identify) is written from the statement and doc/; a malformed identifier may be answered with an error, the statement only demands that nobody is recognised', 'human-readable identifiers (<type>-<profile>-<name> in the URL path or TLS server name) are generated in normal form only; devices created on demand come from an idempotent backend stub', 'two parts compose: the wire part shows that the encrypted transports hand the handler exactly the server name, URL path and credentials the client sent with that request; the sysim part injects such values into dnsserver.RequestInfo and judges the decision'],
         "components": {
             "real": ["dnssvc.NewHandlers stack: initial, ratelimitmw (request info, device finding, access checks, rate-limit gate), preservice, mainmw (filtering, recording), preupstream, ecscache", "internal/dnssvc/internal/devicefinder", "internal/profiledb.Default (fed once by a stub storage)", "internal/access Global and DefaultProfile", "agdpasswd bcrypt authenticator"],
             "stub": ["transports (requests are injected as the servers would deliver them: server, addresses, TLS server name, URL, userinfo, EDNS)", "upstream, filter (verdict by name prefix), rate limiter (drops by name prefix), query log, billing, rule stats, DNSDB: recording fakes", "GeoIP (address -> ASN table)"],
